@@ -628,14 +628,24 @@ fn terminate_last_line(node: &SyntaxNode) {
 }
 
 fn inject(builder: &mut GreenNodeBuilder, node: SyntaxNode) {
+    // a line that was the unterminated end of the input gets its newline, next to its
+    // last token: what is injected may be followed by something else
+    let unterminated = node.last_token().filter(|t| t.kind() != NEWLINE);
+    inject_(builder, node, unterminated.as_ref());
+}
+
+fn inject_(builder: &mut GreenNodeBuilder, node: SyntaxNode, unterminated: Option<&SyntaxToken>) {
     builder.start_node(node.kind().into());
     for child in node.children_with_tokens() {
         match child {
             rowan::NodeOrToken::Node(child) => {
-                inject(builder, child);
+                inject_(builder, child, unterminated);
             }
             rowan::NodeOrToken::Token(token) => {
                 builder.token(token.kind().into(), token.text());
+                if Some(&token) == unterminated {
+                    builder.token(NEWLINE.into(), "\n");
+                }
             }
         }
     }
